@@ -1313,7 +1313,9 @@ pub fn run_corner(ch: &mut Chooser, ctx: &mut Ctx) {
             }
         }
         Ok(Ok(Err(e))) => {
-            ctx.viol(&["C01", "C08", "C06"], "verdict", format!("verdict/corner-decode/{}", err_name(&e)), format!("{}({k},{r},{b}) inside the envelope failed to decode with {} shards: {e:?}", kind.name(), adds.len()), false);
+            // (C12: after a decode with a sufficient set there is a result whose accessors say which originals were missing -
+            // for "everything arrived" an empty one; no result at all is not what the accessor contract describes)
+            ctx.viol(&["C01", "C08", "C06", "C12"], "verdict", format!("verdict/corner-decode/{}", err_name(&e)), format!("{}({k},{r},{b}) inside the envelope failed to decode with {} shards: {e:?}", kind.name(), adds.len()), false);
         }
         Ok(Err(why)) => {
             ctx.viol(&["C01", "C08", "C06"], "verdict", "verdict/corner-decode/setup".into(), format!("{}({k},{r},{b}): {why}", kind.name()), false);
